@@ -564,7 +564,7 @@ Section NestedMain.
     (forall c, In c l -> cls_eqb (cls_of c) p = true -> conj_like cfg c || disj_like cfg c = true) ->
     walk (visit cfg env) (Some p) cx l = ROk items ->
     exists parts, items = concat parts /\
-      Forall2 (fun c its => if cls_eqb (cls_of c) p then FLn c cx its else NFn c cx its) l parts.
+      Forall2 (fun c its => if flattened c p then FLn c cx its else NFn c cx its) l parts.
   Proof.
     induction l as [|c l IH]; intros items HS HG Hcl Hw.
     - simpl in Hw. inversion Hw. exists []. split; constructor.
@@ -574,20 +574,20 @@ Section NestedMain.
       inversion HG as [|? ? (Hokc & Hgc) HG']; subst.
       destruct (IH its' HS' HG' (fun c' Hin => Hcl c' (or_intror Hin)) eq_refl) as [parts [Hp HF]].
       exists (its :: parts). split; [simpl; rewrite Hp; reflexivity|]. constructor; [|exact HF].
-      unfold env in Hc. rewrite visit_par in Hc. destruct (cls_eqb (cls_of c) p) eqn:He.
-      + apply cls_eqb_eq in He as He'. subst p.
+      unfold env in Hc. rewrite visit_par in Hc. destruct (flattened c p) eqn:Hf.
+      + apply flattened_cls in Hf as He. apply cls_eqb_eq in He as He'. subst p.
         apply (proj2 (HSc Hsc cx Hokc Hgc)); [apply Hcl; [left; reflexivity|exact He]|exact Hc].
       + destruct (mixes cfg p (cls_of c)); [destruct (Nat.ltb (length (children c)) 2); discriminate|].
         apply (proj1 (HSc Hsc cx Hokc Hgc)). exact Hc.
   Qed.
 
   Lemma parts_good_n p cx l parts :
-    Forall2 (fun c its => if cls_eqb (cls_of c) p then FLn c cx its else NFn c cx its) l parts ->
+    Forall2 (fun c its => if flattened c p then FLn c cx its else NFn c cx its) l parts ->
     forallb egood (concat parts) = true /\ (l <> [] -> concat parts <> []) /\ Forall (einv cx) (concat parts).
   Proof.
     induction 1 as [|c its l parts Hc _ (IH1 & IH2 & IH3)]; [split; [reflexivity|split; [congruence|constructor]]|].
     simpl. rewrite forallb_app, IH1, andb_true_r.
-    destruct (cls_eqb (cls_of c) p).
+    destruct (flattened c p).
     - destruct Hc as (Hg & Hn & Hi & _). split; [exact Hg|]. split.
       + intros _ Habs. apply app_eq_nil in Habs. tauto.
       + apply Forall_app. split; assumption.
@@ -597,13 +597,13 @@ Section NestedMain.
 
   Lemma parts_conj_n p cx l parts F d :
     fsim F (fun l => l) ->
-    Forall2 (fun c its => if cls_eqb (cls_of c) p then FLn c cx its else NFn c cx its) l parts ->
+    Forall2 (fun c its => if flattened c p then FLn c cx its else NFn c cx its) l parts ->
     (forall c, In c l -> cls_eqb (cls_of c) p = true -> conj_like cfg c = true) ->
     forallb (EVn cx d F) (concat parts) = forallb (fun c => Dn c cx [] d) l.
   Proof.
     intros HF H. induction H as [|c its l parts Hc _ IH]; intros Hcl; [reflexivity|].
     simpl. rewrite forallb_app, IH by (intros c' Hin; apply Hcl; right; exact Hin). f_equal.
-    destruct (cls_eqb (cls_of c) p) eqn:He.
+    destruct (flattened c p) eqn:Hf; [apply flattened_cls in Hf as He|].
     - destruct Hc as (_ & _ & _ & Hc). apply (proj1 (Hc F d HF)). apply Hcl; [left; reflexivity|exact He].
     - destruct Hc as (e & -> & _ & _ & _ & _ & Hc). simpl. rewrite andb_true_r.
       apply (Hc [] F HF (or_introl eq_refl)).
@@ -611,13 +611,13 @@ Section NestedMain.
 
   Lemma parts_disj_n p cx l parts F d :
     fsim F (fun l => l) ->
-    Forall2 (fun c its => if cls_eqb (cls_of c) p then FLn c cx its else NFn c cx its) l parts ->
+    Forall2 (fun c its => if flattened c p then FLn c cx its else NFn c cx its) l parts ->
     (forall c, In c l -> cls_eqb (cls_of c) p = true -> disj_like cfg c = true) ->
     existsb (EVn cx d F) (concat parts) = existsb (fun c => Dn c cx [] d) l.
   Proof.
     intros HF H. induction H as [|c its l parts Hc _ IH]; intros Hcl; [reflexivity|].
     simpl. rewrite existsb_app, IH by (intros c' Hin; apply Hcl; right; exact Hin). f_equal.
-    destruct (cls_eqb (cls_of c) p) eqn:He.
+    destruct (flattened c p) eqn:Hf; [apply flattened_cls in Hf as He|].
     - destruct Hc as (_ & _ & _ & Hc). apply (proj2 (Hc F d HF)). apply Hcl; [left; reflexivity|exact He].
     - destruct Hc as (e & -> & _ & _ & _ & _ & Hc). simpl. rewrite orb_false_r.
       apply (Hc [] F HF (or_introl eq_refl)).
@@ -764,8 +764,8 @@ Section NestedMain.
   Qed.
 
   Lemma forall2_nf_n p cx l parts :
-    (forall c, In c l -> cls_eqb (cls_of c) p = false) ->
-    Forall2 (fun c its => if cls_eqb (cls_of c) p then FLn c cx its else NFn c cx its) l parts ->
+    (forall c, In c l -> flattened c p = false) ->
+    Forall2 (fun c its => if flattened c p then FLn c cx its else NFn c cx its) l parts ->
     Forall2 (fun c its => NFn c cx its) l parts.
   Proof.
     intros Hnb HF. induction HF as [|c its l parts Hc _ IH]; constructor.
@@ -1104,7 +1104,7 @@ Section NestedMain.
         - unfold cx'. rewrite field_prefix_propagate. apply HGc. exact Hc. }
       destruct (walk_ops_n _ _ _ _ HS HG (fun c Hin He => ltac:(rewrite (Hnb c Hin) in He; discriminate He)) Hw)
         as [parts [-> HF]].
-      pose proof (forall2_nf_n _ _ _ _ Hnb HF) as HF'.
+      pose proof (forall2_nf_n _ _ _ _ (fun c Hin => not_cls_not_flattened c _ (Hnb c Hin)) HF) as HF'.
       destruct (parts_good_n _ _ _ _ HF) as (Hg & Hne & Hi).
       exists (EOp EKBool (concat parts)). split; [reflexivity|]. split; [exact Hg|].
       split; [apply supported_op_length in Hs; destruct (concat parts);
@@ -1535,8 +1535,8 @@ Section NestedStructure.
       - (* NoneItem *) apply Hgen; [reflexivity|exact Hv]. }
     intros par cx items Hp Hok Hn Hv. unfold env in Hv. rewrite visit_par in Hv. fold env in Hv.
     destruct par as [p|]; [|exact (HN cx items Hok Hn Hv)].
-    destruct (cls_eqb (cls_of t) p) eqn:He.
-    - apply cls_eqb_eq in He. subst p. pose proof (Hp _ eq_refl) as Hb. rewrite binary_cls_of in Hb.
+    destruct (flattened t p) eqn:Hfl.
+    - apply flattened_cls in Hfl as He. apply cls_eqb_eq in He. subst p. pose proof (Hp _ eq_refl) as Hb. rewrite binary_cls_of in Hb.
       assert (Hf : is_field t = false) by (destruct t; try reflexivity; discriminate Hb).
       refine (walk_ws (Some (cls_of t)) cx _ items Hp IH _ Hv).
       pose proof (names_plain_children ef t Hn) as H. rewrite Forall_forall in *.
